@@ -1,6 +1,7 @@
 package core
 
 import (
+	"sync"
 	"go/ast"
 	"go/token"
 	"go/types"
@@ -53,7 +54,7 @@ func IsBuiltinCall(info *types.Info, call *ast.CallExpr, name string) bool {
 		return false
 	}
 	b, ok := info.Uses[id].(*types.Builtin)
-	return ok && b.Name() == name
+	return ok && N(b) == name
 }
 
 // FuncFullName gives "pkgrel.Recv.Name" for an object of the analysed module,
@@ -62,7 +63,7 @@ func FuncFullName(f *types.Func) string {
 	if f == nil {
 		return ""
 	}
-	name := f.Name()
+	name := N(f)
 	if sig, ok := f.Type().(*types.Signature); ok && sig.Recv() != nil {
 		name = TypeName(sig.Recv().Type()) + "." + name
 	}
@@ -87,13 +88,13 @@ func IsPkgFunc(f *types.Func, pkgPath, name string) bool {
 	if sig, ok := f.Type().(*types.Signature); ok && sig.Recv() != nil {
 		return false
 	}
-	return f.Pkg().Path() == pkgPath && f.Name() == name
+	return f.Pkg().Path() == pkgPath && N(f) == name
 }
 
 // IsMethod reports whether f is method name on named type (pkgPath, typeName),
 // value or pointer receiver.
 func IsMethod(f *types.Func, pkgPath, typeName, name string) bool {
-	if f == nil || f.Name() != name {
+	if f == nil || N(f) != name {
 		return false
 	}
 	sig, ok := f.Type().(*types.Signature)
@@ -108,7 +109,7 @@ func IsMethod(f *types.Func, pkgPath, typeName, name string) bool {
 	if !ok || n.Obj().Pkg() == nil {
 		return false
 	}
-	return n.Obj().Pkg().Path() == pkgPath && n.Obj().Name() == typeName
+	return n.Obj().Pkg().Path() == pkgPath && N(n.Obj()) == typeName
 }
 
 // ObjOf resolves an identifier or selector expression to its object.
@@ -136,7 +137,7 @@ func FieldSel(info *types.Info, e ast.Expr, typeName, field string) bool {
 		return false
 	}
 	s := info.Selections[se]
-	if s == nil || s.Kind() != types.FieldVal || s.Obj().Name() != field {
+	if s == nil || s.Kind() != types.FieldVal || N(s.Obj()) != field {
 		return false
 	}
 	return TypeName(s.Recv()) == typeName
@@ -157,7 +158,7 @@ func NamedOf(t types.Type) *types.Named {
 // IsNamed reports whether t (or *t) is the named type pkgPath.name.
 func IsNamed(t types.Type, pkgPath, name string) bool {
 	n := NamedOf(t)
-	return n != nil && n.Obj().Name() == name && n.Obj().Pkg() != nil && n.Obj().Pkg().Path() == pkgPath
+	return n != nil && N(n.Obj()) == name && n.Obj().Pkg() != nil && n.Obj().Pkg().Path() == pkgPath
 }
 
 // RelOfPkg returns the module-relative path of a types.Package ("" root).
@@ -189,6 +190,12 @@ func (c *Ctx) FuncDecls(f func(rel string, p *packages.Package, fd *ast.FuncDecl
 
 // DeclName returns "Recv.Name" or "Name" of a declaration.
 func DeclName(fd *ast.FuncDecl) string {
+	declCanonMu.RLock()
+	cn, ok := declCanon[fd]
+	declCanonMu.RUnlock()
+	if ok {
+		return cn
+	}
 	if fd.Recv != nil && len(fd.Recv.List) == 1 {
 		t := fd.Recv.List[0].Type
 		if s, ok := t.(*ast.StarExpr); ok {
@@ -200,6 +207,11 @@ func DeclName(fd *ast.FuncDecl) string {
 	}
 	return fd.Name.Name
 }
+
+var (
+	declCanonMu sync.RWMutex
+	declCanon   = map[*ast.FuncDecl]string{} // declaration -> pinned "Recv.name" (alias.go)
+)
 
 // FindDecl finds a declaration by package and "Recv.Name"/"Name".
 func (c *Ctx) FindDecl(rel, name string) (*packages.Package, *ast.FuncDecl) {
